@@ -11,7 +11,7 @@ mkdir -p "$here/build"
 (
   flock 9
   mkdir -p "$src"
-  rsync -a --checksum --delete --exclude=/.git --exclude=/_build --exclude=/.build "$repo/" "$src/" || exit 2
+  rsync -rlpgoD --checksum --delete --exclude=/.git --exclude=/_build --exclude=/.build "$repo/" "$src/" || exit 2
   if [ ! -f "$bdir/build.ninja" ]; then
     cmake -G Ninja -S "$src" -B "$bdir" -DCMAKE_CXX_COMPILER=clang++-16 -DCMAKE_C_COMPILER=clang-16 \
       -DCMAKE_BUILD_TYPE=RelWithDebInfo -DCMAKE_CXX_FLAGS=-Wno-error -DBUILD_TESTING=ON >"$bdir.configure.log" 2>&1 \
